@@ -430,8 +430,8 @@ def call_site_bounds(fns, accessors, enum_max, tables):
 DELEGATED = {"opcode_mm_table": "R-MM-INDEX-BOUND"}
 
 
-def run(chk, fns, accessors, enum_max, tables=None, rule="R-TABLE-SUBSCRIPT-BOUND", floor=8, skip_index_names=("encoding_index",)):
-    chk.rule(rule, "every subscript of a constant lookup table in the emit paths has an index whose upper bound (masks, operand-signature "
+def run(chk, fns, accessors, enum_max, tables=None, rule="R-TABLE-SUBSCRIPT-BOUND", floor=8, skip_index_names=("encoding_index",), only_fields=None, text=None):
+    chk.rule(rule, text or "every subscript of a constant lookup table in the emit paths has an index whose upper bound (masks, operand-signature "
                    "field widths, dominating comparisons, enum ranges) is below the table's length: arbitrary operands cannot make the encoder "
                    "read past a table")
     n = 0
@@ -448,6 +448,8 @@ def run(chk, fns, accessors, enum_max, tables=None, rule="R-TABLE-SUBSCRIPT-BOUN
                 continue
             N = array_len(b.get("ty"))
             if not N:
+                continue
+            if only_fields is not None and (b["k"] != "member" or b.get("field") not in only_fields):
                 continue
             ix = fn.e(fn.strip(x["idx"]))
             if ix is not None and ix["k"] == "ref" and ix.get("name") in skip_index_names:
